@@ -26,6 +26,21 @@ CHECKS = {
             "reference semantics taken from docs/src/commands/query.md; comparisons with null/absent fields and string ordering are "
             "unspecified and only checked for layout invariance; known findings match on the query's first feature family",
             "DESIGN.md §4 C02"),
+    "C06": ("exploration",
+            "runtime monitoring: documented-validator oracle on STORE status + visibility re-checks after FLUSH and restart",
+            "Named payload mutators (drop/add/misspell key, every JSON type in every slot, i64/u64 boundaries, floats for ints, nested "
+            "values, enum case, unparseable times, empty contexts, undefined type) are applied to conforming payloads of generated schemas; "
+            "the acknowledgement is compared with a validator written from the docs and every accepted/rejected k is re-checked for "
+            "visibility after the STORE, after FLUSH and after restart; failed DEFINEs must leave the schema in force.",
+            "payload classes the docs leave open are 'unspecified' and only checked for ack <=> visible exactly once",
+            "DESIGN.md §4 C06"),
+    "C12": ("exploration",
+            "runtime monitoring: shard-tag / directory / scoped-vs-unscoped oracles over multi-lifetime histories",
+            "Context ids of many shapes are stored in three process lifetimes (clean restarts) under shard counts 1..16; the shard tag in "
+            "event ids must be constant per context within and across lifetimes, WAL lines must sit under the tagged shard's directory, "
+            "QUERY/REPLAY FOR ctx must return exactly the context's events and the unscoped QUERY exactly the union.",
+            "shard tag decoded from event_id bits 12..21; crash restarts are excluded here (loss after crash is C01's subject)",
+            "DESIGN.md §4 C12"),
 }
 
 PENDING_REASON = "check not built yet in this session (see DESIGN.md §10 for the order); no claim is made"
